@@ -21,7 +21,7 @@ func init() {
 	Registry["C01"] = Check{Level: "exploration", Fn: runC01}
 }
 
-var c01PKKinds = []string{"int", "autoinc", "composite", "varchar", "composite3"}
+var c01PKKinds = []string{"int", "autoinc", "composite", "varchar", "composite3", "composite_txt"}
 
 func c01GenCase(r *vc.Rand, idx int, kinds []string, prefix string) *atCase {
 	c := &atCase{Name: fmt.Sprintf("%s%04d", prefix, idx), Feat: map[string]string{}}
@@ -62,11 +62,17 @@ func c01GenCase(r *vc.Rand, idx int, kinds []string, prefix string) *atCase {
 			case 2:
 				grp.Stmts = append(grp.Stmts, atGenDelete(r, t, o))
 			case 3:
+				o.shuffleCols = r.Bool()
 				grp.Stmts = append(grp.Stmts, atGenInsert(r, t, o, 1, &seq))
 			case 4:
+				o.shuffleCols = r.Bool()
 				grp.Stmts = append(grp.Stmts, atGenInsert(r, t, o, 2+r.Intn(2), &seq))
 			case 5:
-				grp.Stmts = append(grp.Stmts, atGenUpsert(r, t, o, r.Bool(), &seq))
+				if r.Intn(3) == 0 {
+					grp.Stmts = append(grp.Stmts, atGenUpsertMulti(r, t, o, &seq))
+				} else {
+					grp.Stmts = append(grp.Stmts, atGenUpsert(r, t, o, r.Bool(), &seq))
+				}
 			}
 		}
 		c.Groups = append(c.Groups, grp)
